@@ -19,8 +19,9 @@ VARIABLES file,        \* sequence of <<base, size, len>>
           perr,        \* pending (sticky) error class: "nil", "EOF", "other"
           faultable,   \* errors may appear
           cutLen,      \* -1, or the logical length of the data before a cut that falls on a member boundary
+          layoutOK,    \* the member table describes the stream (FALSE when a byte was altered: offsets are then not judged)
           open
-rvars == <<file, fileEnd, pos, blocked, perr, faultable, cutLen, open>>
+rvars == <<file, fileEnd, pos, blocked, perr, faultable, cutLen, layoutOK, open>>
 
 \* the data: a texture both TLC and the harness can compute
 T(i) == ((i % 251) * (i % 251) + (i \div 251) * 3 + (i \div 64256) * 11) % 256
@@ -60,7 +61,7 @@ DataOK(r, p, k) == IF "dok" \in DOMAIN r THEN r.dok /\ r.hpos = p      \* C01 re
 \* Read(n) / ReadByte (n = 1, byte = TRUE) with reply r = [k, err, data|pm, begin, end]
 Read(n, r) ==
     /\ open
-    /\ UNCHANGED <<file, fileEnd, blocked, faultable, cutLen, open>>
+    /\ UNCHANGED <<file, fileEnd, blocked, faultable, cutLen, layoutOK, open>>
     /\ IF perr # "nil"
        THEN \* a pending error is returned until a Seek
             /\ r.k = 0 /\ r.err = perr /\ UNCHANGED <<pos, perr>>
@@ -70,9 +71,10 @@ Read(n, r) ==
                   /\ IF k = n /\ n > 0 THEN r.err = "nil"
                      ELSE IF n = 0 THEN r.err \in (IF pos >= Total THEN {"nil", "EOF"} ELSE {"nil"})
                      ELSE r.err = "EOF"                           \* short only at the end of the data / of the block
-                  /\ (k > 0 => SpellsInside(r.begin, pos))
-                  /\ (k = 0 /\ r.err = "nil" => Spells(r.begin, pos))
-                  /\ (r.err = "nil" \/ k > 0 => Spells(r.end, pos + k))
+                  /\ layoutOK =>
+                       /\ (k > 0 => SpellsInside(r.begin, pos))
+                       /\ (k = 0 /\ r.err = "nil" => Spells(r.begin, pos))
+                       /\ (r.err = "nil" \/ k > 0 => Spells(r.end, pos + k))
                   /\ pos' = pos + k
                   /\ perr' = IF r.err = "EOF" /\ ~(blocked /\ pos + k < Total) THEN "EOF" ELSE "nil"
                \/ \* fault-aware: a correct prefix, then an error
@@ -85,17 +87,17 @@ Read(n, r) ==
 \* Seek to a valid virtual offset
 Seek(off, r) ==
     /\ open /\ ValidOffset(off)
-    /\ UNCHANGED <<file, fileEnd, blocked, faultable, cutLen, open>>
+    /\ UNCHANGED <<file, fileEnd, blocked, faultable, cutLen, layoutOK, open>>
     /\ \/ /\ r.err = "nil" /\ r.begin = off /\ r.end = off
           /\ pos' = Logical(off) /\ perr' = "nil"
        \/ /\ faultable /\ r.err # "nil"
           /\ perr' = r.err /\ UNCHANGED pos
 
-SetBlocked(v) == open /\ blocked' = v /\ UNCHANGED <<file, fileEnd, pos, perr, faultable, cutLen, open>>
+SetBlocked(v) == open /\ blocked' = v /\ UNCHANGED <<file, fileEnd, pos, perr, faultable, cutLen, layoutOK, open>>
 \* attaching, replacing or removing a cache changes nothing a caller can observe
 SetCache == open /\ UNCHANGED rvars
 Close(r) == /\ open /\ open' = FALSE
             /\ r.leak = 0                                          \* no goroutine of the library remains
             /\ (r.err # "nil" => faultable)
-            /\ UNCHANGED <<file, fileEnd, pos, blocked, perr, faultable, cutLen>>
+            /\ UNCHANGED <<file, fileEnd, pos, blocked, perr, faultable, cutLen, layoutOK>>
 =============================================================================
